@@ -316,6 +316,81 @@ theorem print_builtin (vs : List (Val F)) (st : St F) :
   simp [callBuiltin, isBuiltin, builtinNames, lit]
   cases joinVals ops st vs [' '] <;> rfl
 
+/-! ### for loops -/
+
+/-- the ranger yields values of the loop variable's type -/
+def RangerOk (S : Store) : Ranger F → Ty → Prop
+  | .step _ _ _, t => t = .num
+  | .arr a _, t => S[a]? = some (.arr t)
+  | .str _ _, t => t = .str
+  | .map _ _, t => t = .str
+
+theorem RangerOk.mono {S S' : Store} (g : Grows S S') {r : Ranger F} {t : Ty} (h : RangerOk S r t) : RangerOk S' r t := by
+  cases r with
+  | step _ _ _ => exact h
+  | arr a c => exact g.get h
+  | str _ _ => exact h
+  | map _ _ => exact h
+
+theorem rangerNext_typed {S : Store} {st : St F} (hk : HeapOk S st.heap) (r r' : Ranger F) (t : Ty) (v : Val F)
+    (hr : RangerOk S r t) (h : rangerNext ops st r = some (v, r')) : VT S v t ∧ RangerOk S r' t := by
+  cases r with
+  | step cur stop step =>
+    have ht : t = .num := hr
+    subst ht
+    simp only [rangerNext] at h
+    split at h
+    · cases h
+    · split at h
+      · cases h
+      · simp at h; obtain ⟨rfl, rfl⟩ := h; exact ⟨.num _, rfl⟩
+  | arr a cur =>
+    have ha : S[a]? = some (.arr t) := hr
+    obtain ⟨es, he, hes⟩ := hk.arr a t ha
+    simp only [rangerNext, heapGet, he] at h
+    split at h
+    · rename_i w hw
+      simp at h; obtain ⟨rfl, rfl⟩ := h
+      exact ⟨hes _ (List.mem_of_getElem? hw), ha⟩
+    · cases h
+  | str rs cur =>
+    have ht : t = .str := hr
+    subst ht
+    simp only [rangerNext] at h
+    split at h
+    · simp at h; obtain ⟨rfl, rfl⟩ := h; exact ⟨.str _, rfl⟩
+    · cases h
+  | map a order =>
+    have ht : t = .str := hr
+    subst ht
+    simp only [rangerNext] at h
+    split at h
+    · cases hn : nextPresent ‹MapVal (Val F)› order with
+      | none => rw [hn] at h; cases h
+      | some p => rw [hn] at h; simp at h; obtain ⟨rfl, rfl⟩ := h; exact ⟨.str _, rfl⟩
+    · cases h
+
+/-- the zero value of a loop variable has the variable's type -/
+theorem zeroVal_typed {S : Store} {st : St F} (hk : HeapOk S st.heap) (s : Ty) (hs : Reg s = true) :
+    ∃ S', Grows S S' ∧ HeapOk S' (zeroVal ops st s).2.heap ∧ VT S' (zeroVal ops st s).1 s ∧
+      (zeroVal ops st s).2.locals = st.locals ∧ (zeroVal ops st s).2.global = st.global := by
+  cases s with
+  | num => exact ⟨S, Grows.refl S, hk, .num _, rfl, rfl⟩
+  | str => exact ⟨S, Grows.refl S, hk, .str _, rfl, rfl⟩
+  | bool => exact ⟨S, Grows.refl S, hk, .bool _, rfl, rfl⟩
+  | any => exact ⟨S, Grows.refl S, hk, .any .bool _ (by simp) (.bool _), rfl, rfl⟩
+  | arr t =>
+    obtain ⟨hk', vt⟩ := hk.push_arr t (by simpa [Reg] using hs) [] (by intro v hv; cases hv)
+    exact ⟨_, Grows.snoc S _, hk', vt, rfl, rfl⟩
+  | map t =>
+    obtain ⟨hk', vt⟩ := hk.push_map t (by simpa [Reg] using hs) MapVal.empty (by intro v hv; cases hv)
+    exact ⟨_, Grows.snoc S _, hk', vt, rfl, rfl⟩
+  | none => simp [Reg] at hs
+  | earr => simp [Reg] at hs
+  | emap => simp [Reg] at hs
+  | garr => simp [Reg] at hs
+  | gmap => simp [Reg] at hs
+
 /-! ### the induction -/
 
 /-- evaluate an expression of a statement: the state stays well-typed under the same scopes -/
